@@ -77,12 +77,22 @@ PROPS = {
         trusted=["shims/std_misc.rs, lb_env.rs, registry_env.rs"],
     ),
     "C18": dict(
-        level_text="Proof (Verus, unbounded) of panic-freedom of the configuration dispatch for ANY serde_yaml::Value: connectors::from_value/from_config, listeners::from_value/from_config (requires true), and LoadBalanceConnector::verify/init (a balancer listing itself is rejected).",
+        level_text="Proof (Verus, unbounded) of panic-freedom of the configuration dispatch for ANY serde_yaml::Value: connectors::from_value/from_config, listeners::from_value/from_config (requires true), and LoadBalanceConnector::verify/init (a balancer listing itself is rejected); every rule-language signature() body (check time, reached by posting a rule list) is panic-free for any argument list.",
         level_note="Partial: serde/serde_yaml deserialisation, clap, rustls PEM loading, axum start-up and balancer cycles longer than one are not covered. Trusted: yaml/registry shims, per-kind from_value shims.",
-        verus_units=["config_dispatch", "loadbalance"],
+        verus_units=["config_dispatch", "loadbalance", "milu_int", "milu_cmp", "milu_access", "milu_str", "milu_ext"],
         level="proof",
         assumptions=A_COMMON + ["per-kind from_value (serde) returns an arbitrary Result", "cycles through several load balancers are not detected by verify() (documented gap)"],
         trusted=["shims/yaml.rs, registry_env.rs, config_env.rs"],
+    ),
+    "C08": dict(
+        level_text="Proof (Verus, unbounded) per builtin of the rule language, on bodies taken from the compiler's own macro expansion on every run: for ALL i64 operands the integer operators never trap (overflow, division by zero, i64::MIN/-1, over-wide or negative shift) and return exactly the mathematical/bitwise result or Err; the comparison operators are total (no panic for any operand pair) and ordered as documented; Vec<Value>::get / Index / tuple Access are bounds-checked for every index at check time and at run time; If/Not/And/Or/Xor/IsMemberOf/ToString/ToInteger/Split/StringConcat/Like return the declared type; Accessible::type_of agrees with Accessible::get for request.source/target attributes.",
+        level_note="Partial: the induction over all expression trees that composes the per-builtin contracts into 'accepted => never a type error' is NOT mechanised (Value::type_of/value_of are uninterpreted: the stated induction hypothesis); Scope/let, Call dispatch and the parser are not covered. Trusted: shims/milu.rs, milu_ext.rs, rustc macro expansion (T11).",
+        verus_units=["milu_int", "milu_cmp", "milu_access", "milu_str", "milu_ext"],
+        level="proof",
+        assumptions=A_COMMON + ["induction hypothesis: evaluating a sub-expression yields a value of the type its type_of reported (uninterpreted spec functions)",
+                                "T11: -Zunpretty=expanded output is the expansion that is compiled; reported line numbers of macro-generated bodies refer to the expansion",
+                                "Error values are abstracted to a unit: which dynamic error is returned is not distinguished"],
+        trusted=["shims/milu.rs, shims/milu_ext.rs"],
     ),
     "C05": dict(
         _x=0,
@@ -104,5 +114,5 @@ NOT_APPLICABLE = {
     "C16": "exactly-once accounting is an invariant over whole histories of concurrently created/dropped Arc<RwLock<Context>>, a Drop impl and a spawned collector loop; not a property of one call",
     "C19": "recovery within bounded attempts quantifies over fault sequences in time and quinn's connection state machine; no contract available here can decide it",
 }
-for _k in ["C02", "C08", "C15"]:
+for _k in ["C02", "C15"]:
     NOT_APPLICABLE.setdefault(_k, "not built yet (planned in DESIGN.md; unit under construction)")
